@@ -378,3 +378,10 @@ CHECKS["C10"]["assumptions"] = CHECKS["C10"]["assumptions"] + AE_ASSUME
 
 CHECKS["C03"]["harnesses"].append(H_GATE)
 CHECKS["C02"]["harnesses"].append(H_TAKESNAP)
+
+H_LEASE_REARM = {"fn": "vh_lease_rearm", "what": "the lease case of leaderLoop with the quorum in contact: stays leader and re-arms the check within one lease (LeaderLeaseTimeout 500ms, HeartbeatTimeout 3s)", "bounds": "2 voters", "covers": ["rearm.stays-leader"]}
+H_PROCRPC = {"fn": "vh_process_rpc", "what": "processRPC dispatch of RequestVote / RequestPreVote with pre-vote enabled or disabled locally", "bounds": "N=1", "covers": ["processrpc.end"]}
+CHECKS["C13"]["harnesses"].append(H_LEASE_REARM)
+CHECKS["C14"]["harnesses"].append(H_PROCRPC)
+CHECKS["C12"]["harnesses"].append(H_RESTORE)
+CHECKS["C19"]["harnesses"][2]["thorough"] = {"max_paths": 1500000, "max_seconds": 9000}
